@@ -40,6 +40,8 @@ type Engine struct {
 	stale          []string
 	globalIDs      map[*ssa.Global]int
 	curProp        string
+	scopeKinds     map[*ssa.Function][]string
+	closeMemo      map[*ssa.Function]int
 }
 
 // active: a clause takes part in the current property's check iff it is untagged or carries the property's tag.
@@ -201,7 +203,25 @@ func (e *Engine) loadSpecs(externDir string) error {
 		}
 		db.lemmas = append(db.lemmas, sf.Lemmas...)
 		for _, t := range sf.Types {
-			db.types[sf.Pkg+"."+t.Name] = t
+			k := sf.Pkg + "." + t.Name
+			if strings.Contains(t.Name, "/") || strings.Count(t.Name, ".") > 0 {
+				k = t.Name // fully qualified (types of other packages in extern spec files)
+			}
+			if old, ok := db.types[k]; ok {
+				// several blocks for one type (one per property family): merge
+				old.Guarded = append(old.Guarded, t.Guarded...)
+				old.Final = append(old.Final, t.Final...)
+				old.FinalTags = append(old.FinalTags, t.FinalTags...)
+				old.Private = append(old.Private, t.Private...)
+				old.Owns = append(old.Owns, t.Owns...)
+				old.Atomic = append(old.Atomic, t.Atomic...)
+				old.Confined = append(old.Confined, t.Confined...)
+				old.HB = append(old.HB, t.HB...)
+				old.Invs = append(old.Invs, t.Invs...)
+				old.Ctors = append(old.Ctors, t.Ctors...)
+				continue
+			}
+			db.types[k] = t
 		}
 		for _, f := range sf.Funcs {
 			if f.IsCallSpec {
@@ -433,4 +453,60 @@ func (e *Engine) resolveType(pkgPath string, t *TypeExpr) (types.Type, error) {
 		}
 	}
 	return nil, fmt.Errorf("unknown type %s.%s", t.Pkg, t.Name)
+}
+
+// mayClose: can a call of fn (transitively through static calls, closures,
+// go and defer) execute the close builtin?  Dynamic and interface calls are
+// assumed not to close channels private to the module's types (listed as an
+// assumption in the evidence).
+func (e *Engine) mayClose(fn *ssa.Function) bool {
+	if e.closeMemo == nil {
+		e.closeMemo = map[*ssa.Function]int{}
+	}
+	switch e.closeMemo[fn] {
+	case 1:
+		return false
+	case 2:
+		return true
+	case 3:
+		return false // in progress (recursion)
+	}
+	e.closeMemo[fn] = 3
+	res := false
+	var visit func(cc *ssa.CallCommon)
+	visit = func(cc *ssa.CallCommon) {
+		if b, ok := cc.Value.(*ssa.Builtin); ok && b.Name() == "close" {
+			res = true
+			return
+		}
+		if c := cc.StaticCallee(); c != nil && c != fn {
+			if c.Pkg != nil && inModule(c.Pkg.Pkg) || c.Parent() != nil {
+				if e.mayClose(c) {
+					res = true
+				}
+			}
+		}
+	}
+	for _, b := range fn.Blocks {
+		for _, in := range b.Instrs {
+			switch x := in.(type) {
+			case *ssa.Call:
+				visit(&x.Call)
+			case *ssa.Defer:
+				visit(&x.Call)
+			case *ssa.Go:
+				visit(&x.Call)
+			case *ssa.MakeClosure:
+				if c, ok := x.Fn.(*ssa.Function); ok && e.mayClose(c) {
+					res = true
+				}
+			}
+		}
+	}
+	if res {
+		e.closeMemo[fn] = 2
+	} else {
+		e.closeMemo[fn] = 1
+	}
+	return res
 }
